@@ -44,6 +44,7 @@ def shards(tier, seed):
     for ql in (1, 2):
         out.append(dict(name="pal6/q%d" % ql, kind="pal", ncols=6, ql=ql, first=None, weight=6 ** ql * 300))
     out.append(dict(name="shapes", kind="shapes", weight=5000))
+    out.append(dict(name="many_targets", kind="many", weight=6000))
     return out
 
 
@@ -276,8 +277,36 @@ def run_shapes(rec, tier, seed):
     rec.sample(dict(kind="shapes", lengths=lens, bins="10..200", strands="both"))
 
 
+def run_many(rec, tier, seed):
+    """Hundreds of targets (more than 255 / 32767 pooled columns), long queries, generic (non-grid) columns."""
+    from tangermeme.tools import tomtom as TT
+    global PALETTE
+    stats = dict(pairs=0, nontrivial=0, degenerate_skipped=0, pairs_score0=0, pairs_bin0_mass=0, pairs_general=0)
+    rs = numpy.random.RandomState(61 + seed)
+    old = PALETTE
+    try:
+        extra = [list(rs.dirichlet([0.6] * 4)) for _ in range(60)]
+        PALETTE = old + extra                      # palette indices 6..65 are generic columns
+        for (nT, tmax, qlens) in ((300, 12, (1, 4, 25)), (40, 3, (2, 9)), (1200, 30, (7,))):
+            Ts = [[int(rs.randint(0, len(PALETTE))) for _ in range(int(rs.randint(1, tmax + 1)))] for _ in range(nT)]
+            for ql in qlens:
+                q = [int(rs.randint(0, len(PALETTE))) for _ in range(ql)]
+                Ts2 = Ts[:-1] + [q]               # the query itself is among the targets
+                for rc in (True, False):
+                    check_case(rec, TT, q, Ts2, 100, rc, stats)
+                    rec.case(1, 1)
+    finally:
+        PALETTE = old
+    for k, v in stats.items():
+        rec.count(k, v)
+    rec.sample(dict(kind="many_targets", n_targets=[300, 40, 1200], query_lengths=[1, 4, 25, 2, 9, 7], columns="6 grid + 60 generic (Dirichlet) columns"))
+
+
 def run_shard(sh, tier, seed):
     rec = Recorder(PID, sh["name"])
+    if sh["kind"] == "many":
+        run_many(rec, tier, seed)
+        return rec.result()
     if sh["kind"] == "pal":
         run_pal(rec, sh, tier, seed)
     else:
@@ -290,6 +319,10 @@ def replay(v):
     c = v["case"]
     rec = Recorder(PID, "replay")
     stats = dict(pairs=0, nontrivial=0, degenerate_skipped=0, pairs_score0=0, pairs_bin0_mass=0, pairs_general=0)
+    if any(i >= len(PALETTE) for i in c.get("query", [])) or any(i >= len(PALETTE) for t in c.get("targets", []) if not isinstance(c.get("targets"), str) for i in t):
+        run_many(rec, "quick", 0)
+        hit = [x for x in rec.violations if x["sig"] == v["sig"]]
+        return (not hit), "re-ran the many-targets family: %d violations with signature %s" % (len(hit), v["sig"])
     if isinstance(c.get("targets"), str):
         return True, "not replayable individually (rc-of-targets differential); re-run the shard"
     check_case(rec, TT, c["query"], c["targets"], c["n_score_bins"], c["reverse_complement"], stats)
